@@ -8,12 +8,7 @@ From C14 Require Import C14Model.
 Local Open Scope R_scope.
 
 (* integer power, negative exponents included *)
-Definition Rpowz (r : R) (n : Z) : R :=
-  match n with
-  | Z0 => 1
-  | Zpos p => r ^ Pos.to_nat p
-  | Zneg p => / (r ^ Pos.to_nat p)
-  end.
+Definition Rpowz (r : R) (n : Z) : R := powerRZ r n.
 
 Definition Rdfun (f : dfn) : R -> R :=
   match f with
